@@ -1010,8 +1010,13 @@ func (a *fa) call(c ssa.CallInstruction, res ssa.Value) bool {
 		}()
 	}
 	if a.e.sums[sc] == nil {
-		// out of scope and not modelled: no writes to our regions; result fresh
-		// unless it may alias an argument (interface/any-typed plumbing such as fmt).
+		// out of scope and not modelled: no writes to our regions; result fresh.
+		// Exception: the ADDRESS of a package-level variable handed to foreign code
+		// (a method of sync.Map, sync.Pool, atomic.Value, ... declared at package level)
+		// is treated as a write of that variable: it is mutable shared state.
+		for _, arg := range com.Args {
+			a.globalEscapes(arg)
+		}
 		return ch
 	}
 	all := append([]ssa.Value{}, com.Args...)
@@ -1282,6 +1287,35 @@ func (a *fa) heapStoreKey(key string, t fact) {
 		}
 		a.e.heap[key] = n
 		a.e.changed = true
+	}
+}
+
+// globalEscapes marks a package-level variable as written when its address
+// (or the address of a part of it) is passed to out-of-scope code.
+func (a *fa) globalEscapes(v ssa.Value) {
+	for i := 0; i < 6; i++ {
+		switch x := v.(type) {
+		case *ssa.Global:
+			if a.e.p.inScopeGlobal(x) {
+				if !a.sum.wglobal[x] {
+					a.sum.wglobal[x] = true
+					a.e.changed = true
+				}
+				if !a.sum.rglobal[x] {
+					a.sum.rglobal[x] = true
+					a.e.changed = true
+				}
+			}
+			return
+		case *ssa.FieldAddr:
+			v = x.X
+		case *ssa.IndexAddr:
+			v = x.X
+		case *ssa.MakeInterface:
+			v = x.X
+		default:
+			return
+		}
 	}
 }
 
